@@ -116,6 +116,69 @@ def one(ctx, mods, np, s1, s2, kw, nd):
     if kw.get("inner_dist", "squared euclidean") == "squared euclidean" or not kw.get("penalty"):
         run("dtw_cc.best_path_compact", lambda: dtw_cc.best_path_compact(MK, r, c, **cs),
             want=float(inn.result(dK)) if dK != inf else inf)
+        # exported C routines without a Cython wrapper (C API users): custom start cell and tolerance-based back-tracking
+        if not nd and clib(dtw_cc) is not None:
+            with monitors.quiet():
+                dKn, MKn = dtw.warping_paths_fast(s1, s2, psi_neg=False, compact=True, keep_int_repr=True, **kwn)
+            if cells:
+                ci, cj = rng.choice(cells)
+                run("C:dtw_best_path_customstart", lambda: c_custom(dtw_cc, np, MKn, r, c, cs, ci, cj),
+                    want=float(inn.result(MN[ci, cj])), start=(ci - 1, cj - 1), extra=dict(row=ci, col=cj))
+            if not (psi_t[1] or psi_t[3]):
+                run("C:dtw_best_path_isclose", lambda: c_custom(dtw_cc, np, MKn, r, c, cs, isclose=(1e-9, 1e-12)),
+                    want=float(inn.result(dKn)) if dKn != inf else inf)
+
+
+_CLIB = {}
+
+
+def clib(dtw_cc):
+    """exported C path routines that have no Cython wrapper, reached through ctypes on the extension module itself"""
+    if "lib" in _CLIB:
+        return _CLIB["lib"]
+    import ctypes
+    idx_t = ctypes.c_ssize_t
+
+    class CSettings(ctypes.Structure):
+        _fields_ = [("window", idx_t), ("max_dist", ctypes.c_double), ("max_step", ctypes.c_double),
+                    ("max_length_diff", idx_t), ("penalty", ctypes.c_double),
+                    ("psi_1b", idx_t), ("psi_1e", idx_t), ("psi_2b", idx_t), ("psi_2e", idx_t),
+                    ("use_pruning", ctypes.c_bool), ("only_ub", ctypes.c_bool),
+                    ("inner_dist", ctypes.c_int), ("window_type", ctypes.c_int)]
+    try:
+        lib = ctypes.CDLL(dtw_cc.__file__)
+        dp, ip = ctypes.POINTER(ctypes.c_double), ctypes.POINTER(idx_t)
+        lib.dtw_settings_default.restype = CSettings
+        lib.dtw_best_path_customstart.restype = idx_t
+        lib.dtw_best_path_customstart.argtypes = [dp, ip, ip, idx_t, idx_t, idx_t, idx_t, ctypes.POINTER(CSettings)]
+        lib.dtw_best_path_isclose.restype = idx_t
+        lib.dtw_best_path_isclose.argtypes = [dp, ip, ip, idx_t, idx_t, ctypes.c_double, ctypes.c_double, ctypes.POINTER(CSettings)]
+        # layout self-check: the defaults must read back as the documented defaults
+        d = lib.dtw_settings_default()
+        if (d.window, d.penalty, d.psi_1b, d.psi_2e, d.use_pruning, d.inner_dist) != (0, 0.0, 0, 0, False, 0):
+            lib = None
+    except (OSError, AttributeError):
+        lib = None
+    _CLIB["lib"] = (lib, CSettings, idx_t) if lib is not None else None
+    return _CLIB["lib"]
+
+
+def c_custom(dtw_cc, np, MK, r, c, cs, rs=None, cs_col=None, isclose=None):
+    import ctypes
+    lib, CSettings, idx_t = clib(dtw_cc)
+    st = lib.dtw_settings_default()
+    st.window, st.penalty, st.inner_dist = cs["window"], cs["penalty"], cs["inner_dist"]
+    st.max_step, st.max_dist = cs["max_step"], cs["max_dist"]
+    st.psi_1b, st.psi_1e, st.psi_2b, st.psi_2e = oracle.norm_psi(cs["psi"])
+    wps = np.ascontiguousarray(MK, dtype=np.double)
+    i1 = (idx_t * (r + c))()
+    i2 = (idx_t * (r + c))()
+    dp = ctypes.POINTER(ctypes.c_double)
+    if isclose is not None:
+        n = lib.dtw_best_path_isclose(wps.ctypes.data_as(dp), i1, i2, r, c, isclose[0], isclose[1], ctypes.byref(st))
+    else:
+        n = lib.dtw_best_path_customstart(wps.ctypes.data_as(dp), i1, i2, r, c, rs, cs_col, ctypes.byref(st))
+    return [(int(i1[k]), int(i2[k])) for k in range(n)][::-1]
 
 
 def run(ctx):
